@@ -53,7 +53,18 @@ def gen(rng, tier):
                 ph = [rng.choice(voc) for _ in range(L)]
                 distinct = all(a != b for a, b in zip(ph, ph[1:]))
                 (qs if distinct else xs).append(["phraser", ph, lo, hi])
-        cases.append({"docs": docs, "tokz": rng.choice(K.TOKZ), "opts": K.gen_opts(rng, len(docs)), "queries": qs, "xqueries": xs})
+        opts = K.gen_opts(rng, len(docs))
+        if rng.random() < 0.4 and any(docs):
+            # a HISTORY on one index: docfreq first (switches the term-frequency cache on for this term), then windows
+            # that share one bound and differ in the other, repeated: answers must depend on the window only
+            t = rng.choice(voc)
+            opts["cache_gt_than"] = rng.choice([0, 0, 1])
+            H = 18 * rng.randint(1, 9) + 17
+            wins = [(0, H), (18, H), (36, H), (0, H), (18, None), (36, None), (None, H), (0, None), (18, H), (None, None)]
+            rng.shuffle(wins)
+            hist = [["df", t]] + [["tfr", t, lo, hi] for lo, hi in wins if not (lo is None and hi is None)] + [["tf", t]]
+            qs = hist + qs
+        cases.append({"docs": docs, "tokz": rng.choice(K.TOKZ), "opts": opts, "queries": qs, "xqueries": xs})
     return cases
 
 
